@@ -820,10 +820,28 @@ func childConcurrent(seed int64) {
 			}
 		}()
 	}
+	// connections presenting codes nobody issued, while all of the above goes on: must simply be refused
+	var junkWon int32
+	for g := 0; g < 6; g++ {
+		wg.Add(1)
+		go func(g int) {
+			defer wg.Done()
+			for k := 0; ; k++ {
+				select {
+				case <-stop:
+					return
+				default:
+				}
+				if _, err := cs.ExchangeCode(fmt.Sprintf("junk-%d-%d", g, k)); err == nil {
+					atomic.AddInt32(&junkWon, 1)
+				}
+			}
+		}(g)
+	}
 	time.Sleep(1500 * time.Millisecond)
 	close(stop)
 	wg.Wait()
-	fmt.Printf("{\"survived\":true,\"double\":%d}\n", double)
+	fmt.Printf("{\"survived\":true,\"double\":%d,\"junk\":%d}\n", double, junkWon)
 }
 
 func runChild(res *lib.Result, seed int64) {
@@ -854,21 +872,26 @@ func runChild(res *lib.Result, seed int64) {
 		}
 		site := "unknown"
 		for _, fn := range []string{"DeleteByBookingID", "CleanExpired", "ExchangeCode", "SubmitToken"} {
-			if strings.Contains(stderr, "ttlcode.(*CodeStore)."+fn) {
+			if strings.Contains(firstStack(stderr), "ttlcode.(*CodeStore)."+fn) {
 				site = fn
 				break
 			}
 		}
 		rep["stderr"] = truncate(stderr, 3000)
 		violate(res, lib.Violation{Clause: "store-crashed-under-concurrency", Case: -1, Replay: rep, Key: "store-crashed-under-concurrency:ttlcode",
-			Detail: fmt.Sprintf("8 goroutines issuing codes while 8 purge bookings, 4 exchange and one sweeps: the process died (%v) in %s: %s", err, site, truncate(first, 300))})
+			Detail: fmt.Sprintf("8 goroutines issuing codes while 8 purge bookings, 4 exchange, 6 present unissued codes and one sweeps: the process died (%v) in %s: %s", err, site, truncate(first, 300))})
 		return
 	}
 	var out struct {
 		Survived bool `json:"survived"`
 		Double   int  `json:"double"`
+		Junk     int  `json:"junk"`
 	}
 	json.Unmarshal(so.Bytes(), &out)
+	if out.Junk > 0 {
+		violate(res, lib.Violation{Clause: "unissued-code-accepted", Case: -1, Replay: rep, Key: "unissued-code-accepted:concurrent-child",
+			Detail: fmt.Sprintf("%d codes that nobody issued were exchanged successfully under concurrency", out.Junk)})
+	}
 	if out.Double > 0 {
 		violate(res, lib.Violation{Clause: "two-winners-same-instant", Case: -1, Replay: rep, Key: "two-winners-same-instant:concurrent-child",
 			Detail: fmt.Sprintf("%d codes were exchanged successfully by more than one of three simultaneous presenters", out.Double)})
@@ -1021,11 +1044,116 @@ func runE2EChild(cs []*Case, res *lib.Result, dir string, final bool) bool {
 	return true
 }
 
+func childRaces(inPath, outPath string) {
+	log.SetOutput(ioutil.Discard)
+	var f e2eFile
+	b, err := os.ReadFile(inPath)
+	if err != nil || json.Unmarshal(b, &f) != nil {
+		fmt.Fprintln(os.Stderr, "cannot read the race cases", err)
+		os.Exit(3)
+	}
+	for i := range f.Cases {
+		runRace(&f.Cases[i])
+	}
+	seenMu.Lock()
+	for k := range seenCodes {
+		f.Codes = append(f.Codes, k)
+	}
+	f.BadFormat, f.Duplicates = badFormat, duplicates
+	seenMu.Unlock()
+	out, _ := json.Marshal(f)
+	if err := os.WriteFile(outPath, out, 0o644); err != nil {
+		fmt.Fprintln(os.Stderr, err)
+		os.Exit(3)
+	}
+}
+
+func runRaceChild(cs []*Case, res *lib.Result, dir string) {
+	var f e2eFile
+	for _, c := range cs {
+		f.Cases = append(f.Cases, *c)
+	}
+	in, outp := dir+"/races_in.json", dir+"/races_out.json"
+	b, _ := json.Marshal(f)
+	os.MkdirAll(dir, 0o755)
+	os.WriteFile(in, b, 0o644)
+	os.Remove(outp)
+	cmd := exec.Command(os.Args[0], "child-races", in, outp)
+	var se bytes.Buffer
+	cmd.Stderr = &se
+	done := make(chan error, 1)
+	var err error
+	if err = cmd.Start(); err == nil {
+		go func() { done <- cmd.Wait() }()
+		select {
+		case err = <-done:
+		case <-time.After(10 * time.Minute):
+			cmd.Process.Kill()
+			err = fmt.Errorf("watchdog: the races did not finish in 10 min")
+		}
+	}
+	var g e2eFile
+	ob, rerr := os.ReadFile(outp)
+	if err != nil || rerr != nil || json.Unmarshal(ob, &g) != nil || len(g.Cases) != len(cs) {
+		for _, c := range cs {
+			c.Discard = "race-child"
+		}
+		stderr := se.String()
+		head := stderr
+		if i := strings.Index(head, "fatal error:"); i >= 0 {
+			head = head[i:]
+		} else if i := strings.Index(head, "panic:"); i >= 0 {
+			head = head[i:]
+		}
+		violate(res, lib.Violation{Clause: "store-crashed-under-concurrency", Case: -1, Key: "store-crashed-under-concurrency:same-instant-exchange",
+			Replay: map[string]interface{}{"kind": "child-races", "cases": f.Cases[:min(len(f.Cases), 20)], "stderr": truncate(stderr, 4000)},
+			Detail: fmt.Sprintf("2..16 goroutines presenting one code to ExchangeCode at the same instant: the process died (%v): %s", err, truncate(head, 500))})
+		return
+	}
+	for i, c := range cs {
+		*c = g.Cases[i]
+	}
+	for _, k := range g.Codes {
+		noteCode(k)
+	}
+	seenMu.Lock()
+	badFormat += g.BadFormat
+	duplicates += g.Duplicates
+	seenMu.Unlock()
+	os.Remove(in)
+	os.Remove(outp)
+}
+
+func min(a, b int) int {
+	if a < b {
+		return a
+	}
+	return b
+}
+
 var resMu sync.Mutex
 
 func violate(res *lib.Result, v lib.Violation) { resMu.Lock(); res.Violate(v); resMu.Unlock() }
 func count(res *lib.Result, k string)          { resMu.Lock(); res.Count(k); resMu.Unlock() }
 func note(res *lib.Result, n string)           { resMu.Lock(); res.Notes = append(res.Notes, n); resMu.Unlock() }
+
+// firstStack: the goroutine the runtime blames (the first stack after the fatal error line)
+func firstStack(stderr string) string {
+	i := strings.Index(stderr, "fatal error:")
+	if i < 0 {
+		i = strings.Index(stderr, "panic:")
+	}
+	if i < 0 {
+		return stderr
+	}
+	s := stderr[i:]
+	if j := strings.Index(s, "\n\ngoroutine "); j >= 0 {
+		if k := strings.Index(s[j+2:], "\n\n"); k >= 0 {
+			return s[:j+2+k]
+		}
+	}
+	return s
+}
 
 func truncate(s string, n int) string {
 	if len(s) > n {
@@ -1068,6 +1196,10 @@ func main() {
 		childConcurrent(seed)
 		return
 	}
+	if len(os.Args) > 3 && os.Args[1] == "child-races" {
+		childRaces(os.Args[2], os.Args[3])
+		return
+	}
 	if len(os.Args) > 3 && os.Args[1] == "child-e2e" {
 		childE2E(os.Args[2], os.Args[3])
 		return
@@ -1092,7 +1224,7 @@ func main() {
 		case "child-concurrent":
 			replayChild = true
 			runChild(res, a.Seed)
-		case "child-e2e":
+		case "child-e2e", "child-races":
 			cases = raw.Cases
 		default:
 			var c Case
@@ -1186,10 +1318,16 @@ func main() {
 		go func() { defer wg.Done(); runChild(res, a.Seed) }()
 		go func() { defer wg.Done(); sweeperCheck(res) }()
 	}
-	for i := range cases { // the untimed races run on this goroutine meanwhile
+	// the untimed races run meanwhile, in a process of their own: an unsynchronised map access in the
+	// store is a fatal error of the Go runtime, which must not take the harness down
+	var raceCases []*Case
+	for i := range cases {
 		if cases[i].Kind == "race" {
-			runRace(&cases[i])
+			raceCases = append(raceCases, &cases[i])
 		}
+	}
+	if len(raceCases) > 0 {
+		runRaceChild(raceCases, res, a.Out)
 	}
 	wg.Wait()
 
